@@ -255,15 +255,48 @@ def check(idx: Index, rep: Report, tier: str) -> str:
         else:
             r.fail(f.fq, Finding("C23.R3", f.fq, "phi-incoming", f"no loop `for arg, val in zip({missing[0][0]}, {missing[0][1]})` adding `val_map[val]` with the current block to `val_map[arg]` runs before the branch is emitted: a successor argument does not get its phi incoming (LLVM rejects the phi or the value is wrong)", f.loc))
     f = idx.func(CV, "_convert_func")
-    t = unparse(f.node)
-    if "builder.position_after(block_map[block].instructions[-1])" in t and "phi = builder.phi(convert_type(arg.type))" in t:
-        r.ok(f.fq, f"{f.loc} operations are emitted after the last phi of the block")
+    fcfg = CFG(f.node)
+    conv = [c for c in calls_in(f.node) if unparse(c.func) == "convert_op" and len(c.args) >= 2 and isinstance(c.args[1], ast.Name)]
+    if not conv:
+        raise AnalysisError(f"{f.fq}: convert_op call not found")
+    op_builders = {c.args[1].id for c in conv}
+    # (a) ir.IRBuilder(block) starts at the end of the block, i.e. after the phis created earlier: the builder that
+    #     emits the operations may only be re-positioned after the LAST instruction
+    moved = [c for c in calls_in(f.node) if isinstance(c.func, ast.Attribute) and isinstance(c.func.value, ast.Name) and c.func.value.id in op_builders and c.func.attr.startswith("position_")]
+    bad_pos = []
+    for c in moved:
+        arg = resolved_text(fcfg, c.args[0], fcfg.node_of(c)) if c.args else ""
+        if c.func.attr == "position_at_end" or (c.func.attr == "position_after" and re.fullmatch(r".+\.instructions\[-1\]", arg)):
+            continue
+        bad_pos.append(c)
+    if bad_pos:
+        r.fail(f.fq, Finding("C23.R3", f.fq, "ops-between-phis", f"`{unparse(bad_pos[0])}` positions the builder that emits the operations somewhere else than after the LAST instruction of the block: with two or more block arguments instructions land between phis and LLVM rejects the module", f"{CV}:{bad_pos[0].lineno}"))
     else:
-        r.fail(f.fq, Finding("C23.R3", f.fq, "ops-between-phis", "the builder is not positioned after the LAST pre-created phi of the block: with two or more block arguments instructions land between phis and LLVM rejects the module", f.loc))
-    if "for arg, llvm_arg in zip(block.args, func.args):" in t and "block_map[block] = llvm_block" in t:
-        r.ok(f.fq + ":blocks", f"{f.loc} all blocks created before any op is converted (forward branches); entry args mapped to function args")
+        r.ok(f.fq, f"{f.loc} operations are emitted at the end of the block (after every pre-created phi)")
+    # (b) every block exists before any operation is converted (forward branches)
+    crea = []
+    for w in walk_local(f.node):
+        if isinstance(w, ast.For):
+            it = resolved_text(fcfg, w.iter, fcfg.node_of(w))
+            if re.fullmatch(r"(?:enumerate\()?(?:list\()?\w+\.body\.blocks\)?\)?", it) and any(isinstance(s_, ast.Assign) and isinstance(s_.targets[0], ast.Subscript) and unparse(s_.targets[0].value) == "block_map" and "append_basic_block" in resolved_text(fcfg, s_.value, fcfg.node_of(s_)) for s_ in walk_local(w)):
+                crea.append(w)
+    ALLB = r"(?:enumerate\()?(?:list\()?\w+\.body\.blocks\)?\)?"
+    for st in walk_local(f.node):
+        if isinstance(st, (ast.Assign, ast.AnnAssign)) and isinstance(st.value, ast.DictComp) and unparse(st.targets[0] if isinstance(st, ast.Assign) else st.target) == "block_map":
+            g0 = st.value.generators[0]
+            if len(st.value.generators) == 1 and not g0.ifs and re.fullmatch(ALLB, resolved_text(fcfg, g0.iter, fcfg.node_of(st))) and unparse(st.value.key) == unparse(g0.target) and "append_basic_block" in unparse(st.value.value):
+                crea.append(st)
+    if len(crea) != 1:
+        raise AnalysisError(f"{f.fq}: loop creating one LLVM block per block of the body not found ({len(crea)} candidates)")
+    cw = crea[0]
+    inside = [c for c in conv if any(x is c for x in ast.walk(cw))]
+    head = fcfg.node_of(cw)
+    early = [c for c in conv if c not in inside and fcfg.path_avoiding(fcfg.entry, fcfg.node_of(c), lambda n: n.id == head, follow_exc=False) is not None]
+    if inside or early:
+        c = (inside or early)[0]
+        r.fail(f.fq + ":blocks", Finding("C23.R3", f.fq, "blocks-precreated", f"`{unparse(c)[:60]}` can run before every block of the function has its LLVM block: a branch to a later block finds no entry in block_map", f"{CV}:{c.lineno}"))
     else:
-        r.fail(f.fq + ":blocks", Finding("C23.R3", f.fq, "blocks-precreated", "blocks are no longer all created before conversion", f.loc))
+        r.ok(f.fq + ":blocks", f"{f.loc} all blocks created before any op is converted (forward branches)")
 
     r = rep.rule("C23.R4", "operation converters emit at the builder's current position: no converter of convert_op.py moves the insertion point (instruction order = operation order, so operands dominate and per-iteration effects stay per iteration)", floor=10)
     MOVERS = {"goto_entry_block", "goto_block", "position_at_start", "position_at_end", "position_before", "position_after"}
@@ -289,20 +322,29 @@ def check(idx: Index, rep: Report, tier: str) -> str:
         raise AnalysisError(f"{drv.fq}: convert_op call not found")
     pm_ = parent_map(drv.node)
     for c in ccalls:
-        # enclosing loop over the blocks
+        # the block whose operations are being converted: `for <op> in <blk>.ops`
         blk = None
         x = c
         while id(x) in pm_:
             x = pm_[id(x)]
-            if isinstance(x, ast.For) and isinstance(x.target, ast.Name) and re.fullmatch(r"\w+\.body\.blocks|\w+\.regions\[0\]\.blocks", unparse(x.iter)):
-                blk = x.target.id
+            if isinstance(x, ast.For) and unparse(x.target) == unparse(c.args[0]) and re.fullmatch(r"(\w+)\.ops", unparse(x.iter)):
+                blk = unparse(x.iter)[:-4]
                 break
         b = c.args[1]
         inst = f"{drv.fq}:convert_op@{c.lineno}"
         if blk is None or not isinstance(b, ast.Name):
-            raise AnalysisError(f"{drv.fq}: `{unparse(c)}` not inside the loop over the blocks / builder not a local")
+            raise AnalysisError(f"{drv.fq}: `{unparse(c)}` not inside a loop over the operations of a block / builder not a local")
         defs = reaching_defs(dcfg, b.id, dcfg.node_of(c))
-        vals = {unparse(v) if v is not None else "<param>" for _, v in defs}
+        def _bdef(v, nid_):
+            if v is None:
+                return "<param>"
+            if isinstance(v, ast.Call) and unparse(v.func) == "ir.IRBuilder" and len(v.args) == 1 and isinstance(v.args[0], ast.Name):
+                ds = reaching_defs(dcfg, v.args[0].id, nid_)
+                if len(ds) == 1 and ds[0][1] is not None:
+                    return f"ir.IRBuilder({unparse(ds[0][1])})"
+            return unparse(v)
+
+        vals = {_bdef(v, nid_) for nid_, v in defs}
         if vals == {f"ir.IRBuilder(block_map[{blk}])"}:
             r.ok(inst, f"{CV}:{c.lineno} emitted with the builder of its own block")
         elif all(re.fullmatch(r"ir\.IRBuilder\(.*\)", v_) for v_ in vals):
